@@ -9,4 +9,4 @@ def main() -> int:
 def xsd_check_design(ck) -> None:
     from harness import xsd_design
 
-    xsd_design.model_check(ck)
+    xsd_design.model_check(ck, "C14")
